@@ -277,7 +277,7 @@ func main() {
 			"the overlay shims (verifrt) preserve the semantics of the primitives they wrap",
 		}
 		if r.Thorough() {
-			r.Deadline = 90 * time.Minute
+			r.Deadline = 45 * time.Minute
 		}
 		if !mc.Instrumented {
 			panic("C05 must be built with the overlay (-tags verifrt)")
@@ -303,6 +303,22 @@ func main() {
 						for i, m := range ms {
 							roles[i] = role(m)
 							names[i] = roleNames[m]
+						}
+						two := 0
+						for _, rl := range roles {
+							if rl == rTwoReg {
+								two++
+							}
+						}
+						if two >= 2 {
+							// two threads with two registrations each: 2-14 million interleavings per
+							// scenario unbounded (measured); explored under a preemption bound instead,
+							// for the callback counts at which the listener slice has spare capacity
+							if ex == "default" && (k == 3 || k == 5) {
+								sc := r.Conc(fmt.Sprintf("pb3/k%d/%s/%s", k, strings.Join(names, ","), ex), 3, scenario(k, roles, ex))
+								sc.SplitDepth = 4
+							}
+							continue
 						}
 						sc := r.Conc(fmt.Sprintf("k%d/%s/%s", k, strings.Join(names, ","), ex), -1, scenario(k, roles, ex))
 						sc.SplitDepth = 3
